@@ -64,7 +64,9 @@ Lin(t) ==
        [] c.op = "disconnect" /\ c.st = "called" ->
             Disconnect(k) /\ Done(t, "ok") /\ UNCHANGED expect
        [] OTHER -> FALSE
-Next == TCall \/ TRet \/ TCb \/ \E t \in Threads : Lin(t)
+TReset == /\ l <= Len(Tr) /\ Ev.ev = "reset" /\ \A t \in Threads : call[t].st = "idle"
+          /\ Reset /\ l' = l + 1 /\ UNCHANGED <<id, call, expect>>
+Next == TCall \/ TRet \/ TCb \/ TReset \/ \E t \in Threads : Lin(t)
 Spec == Init /\ [][Next]_vars
 
 (* at the end of a COMPLETE run the real queues hold exactly what the abstract channels hold *)
